@@ -4,7 +4,10 @@ Real App.Close over generated closer sets (0-50 closers, failing subsets, blocki
 ZERO-SIZE types, which all share one address, and struct-plus-its-first-field pairs, which share one too, mixed with
 ordinary ones); Close is invoked after Run returned, or WHILE Run is still inside callRunners (an ApplicationRunner that
 serves until a closer's Close / the driver releases it; a server component that is runner and closer at once), or BY an
-ApplicationRunner from inside its Run(); every run yields a sequenced event history that must be accepted by the model's trace acceptor (Conc.close_accepts, which replays it
+ApplicationRunner from inside its Run(), or SEVERAL TIMES, the calls overlapping (mode "overlap": 2-3 calls of App.Close on one
+App, every later one issued while a gate closer of the earlier ones is still blocked inside its Close(); every call has to
+invoke every closer once itself and to wait for its own invocations; model: Model/ConcMulti.v, independent instances of the
+Close phase; acceptor multi_accepts = an interleaving of accepted single-call histories); every run yields a sequenced event history that must be accepted by the model's trace acceptor (Conc.close_accepts, which replays it
 with the model's own `step`) and must satisfy the property oracle.  Nothing depends on wall-clock ordering."""
 import json
 
@@ -26,7 +29,7 @@ MANIFEST = {
                  "of histories recorded from the Go implementation",
 }
 
-HEADER = ("From Coq Require Import List Arith Bool.\nFrom IocVerif Require Import Model.Conc Corr.Check_C14.\n"
+HEADER = ("From Coq Require Import List Arith Bool.\nFrom IocVerif Require Import Model.Conc Model.ConcMulti Corr.Check_C14.\n"
           "Import ListNotations.\n")
 OUTCOME = {"ok": 0, "hang": 1, "stalled": 2, "panic": 3, "runerr": 3}
 N_ZERO_TYPES = 16   # len(zeroTypes) in harness/cmd/c14/zero.go
@@ -95,6 +98,8 @@ def drop_slot(c, r):
         out.append(s)
     c = dict(c, n=c["n"] - 1, kinds=c["kinds"][:r] + c["kinds"][r + 1:], fails=c["fails"][:r] + c["fails"][r + 1:],
              shapes=out)
+    if c.get("via_global"):
+        c["via_global"] = c["via_global"][:r] + c["via_global"][r + 1:]
     if c.get("mode"):   # the runner / the releasing closer that went away: the runner becomes a component of its own,
         slot, rel = c["runner_slot"], c["rel_by"]   # released by the driver
         c["runner_slot"] = -1 if slot == r else (slot - 1 if slot > r else slot)
@@ -142,7 +147,55 @@ def gen_case(rng, cid, maxn):
         fails[rng.randrange(n)] = True
     c = {"id": cid, "n": n, "kinds": kinds, "fails": fails, "shapes": gen_shapes(rng, n),
          "procs": rng.choice([0, 0, 1, 2, 4]), "wdl_ms": rng.choice([3, 8, 15])}
-    return with_mode(rng, c, rng.choice(["", "", "", "", "during", "during", "self"]))
+    c = with_mode(rng, c, rng.choice(["", "", "", "", "during", "during", "self", "overlap", "overlap"]))
+    if not c.get("mode") and rng.random() < 0.3:
+        c = with_settings(rng, c)
+    return c
+
+
+SETTINGS_CALLS = [1, 2, 3, 5, 6, 9, 9, 12]
+
+
+def with_settings(rng, c):
+    """how the closers reach the App (ordinary sequence only; the case runs in a child process, `isolate`, because the
+    library's global settings are process-wide): a share of the closers is handed over through the GLOBAL settings -
+    app.Settings(app.SetComponents(...)) in 1-12 calls - instead of the run option; the run options may begin with
+    app.SetRegistry(<a fresh registry>), may be packed into app.Options values; or (no closers in the global settings then,
+    they would belong to both Apps) one of the run options runs a second, bootstrap App with closers of its own, i.e. an
+    App.Run begins while another App.Run is applying its options - both Apps are closed, each must reach its own closers."""
+    n = c["n"]
+    c = dict(c, isolate=True, settings_calls=rng.choice(SETTINGS_CALLS), own_registry=rng.random() < 0.5,
+             pack=rng.choice([0, 0, 1, 2, 2]), via_global=[False] * n)
+    if rng.random() < 0.4:
+        bn = rng.randint(0, 4)
+        c["boot"] = {"id": 0, "n": bn, "kinds": [rng.choice("FFAW") for _ in range(bn)],
+                     "fails": [rng.random() < 0.4 for _ in range(bn)], "wdl_ms": c["wdl_ms"]}
+        c["boot_at"] = rng.randint(0, 4)
+    else:
+        prof = rng.choice(["all", "some", "some", "one"])
+        c["via_global"] = [prof == "all" or (prof == "some" and rng.random() < 0.5) for _ in range(n)]
+        if prof == "one" and n:
+            c["via_global"][rng.randrange(n)] = True
+    return c
+
+
+def with_overlap(rng, c):
+    """mode "overlap": K = 2-3 calls of App.Close that overlap.  Nine cases in ten have a gate closer (kind G: blocks until
+    the driver opens the gate of its call), which makes the overlap certain: call k+1 is invoked when every closer has been
+    entered k times and the gate closer of call k is still inside Close().  rel_order: the order in which the driver opens
+    the gates of the calls (and waits for that call to return) - any permutation, so a later call may return first."""
+    n = c["n"]
+    if n > 12:     # K histories of n closers each: keep the acceptor's work small
+        n = rng.randint(1, 12)
+        c = dict(c, n=n, kinds=c["kinds"][:n], fails=c["fails"][:n], shapes=gen_shapes(rng, n))
+    kinds = list(c["kinds"])
+    if n and rng.random() < 0.9:
+        for i in rng.sample(range(n), rng.choice([1, 1, 2]) if n >= 2 else 1):
+            kinds[i] = "G"
+    K = rng.choice([2, 2, 3])
+    order = list(range(1, K + 1))
+    rng.shuffle(order)
+    return dict(c, kinds=kinds, mode="overlap", closes=K, rel_order=order, runner_slot=-1, rel_by=0)
 
 
 def with_mode(rng, c, mode):
@@ -152,6 +205,8 @@ def with_mode(rng, c, mode):
     (a server that serves until it is closed: rel_by = runner_slot + 1), -1 = the runner is a component of its own."""
     if not mode:
         return c
+    if mode == "overlap":
+        return with_overlap(rng, c)
     n = c["n"]
     plain = [i for i, s in enumerate(c["shapes"]) if s == "P"]
     slot = rng.choice(plain) if plain and rng.random() < 0.5 else -1
@@ -192,13 +247,52 @@ MODE_CORPUS = [
 ]
 
 
+# overlapping calls of App.Close: a signal handler and the deferred Close of main at the same time (two calls, the second
+# one returns first / last), three calls, a blocked gate next to closers that fail, closers that share an address
+OVERLAP_CORPUS = [
+    {"n": 2, "kinds": ["G", "F"], "fails": [False, False], "shapes": ["P", "P"], "procs": 0, "wdl_ms": 10,
+     "mode": "overlap", "closes": 2, "rel_order": [1, 2], "runner_slot": -1, "rel_by": 0},
+    {"n": 3, "kinds": ["F", "G", "W"], "fails": [True, False, False], "shapes": ["P", "P", "P"], "procs": 0, "wdl_ms": 10,
+     "mode": "overlap", "closes": 2, "rel_order": [2, 1], "runner_slot": -1, "rel_by": 0},
+    {"n": 4, "kinds": ["A", "G", "W", "G"], "fails": [True, True, False, False], "shapes": ["Z1", "P", "O:3", "I"], "procs": 1,
+     "wdl_ms": 10, "mode": "overlap", "closes": 3, "rel_order": [3, 1, 2], "runner_slot": -1, "rel_by": 0},
+    {"n": 1, "kinds": ["G"], "fails": [True], "shapes": ["Z0"], "procs": 2, "wdl_ms": 5,
+     "mode": "overlap", "closes": 3, "rel_order": [2, 3, 1], "runner_slot": -1, "rel_by": 0},
+    {"n": 0, "kinds": [], "fails": [], "shapes": [], "procs": 0, "wdl_ms": 5,
+     "mode": "overlap", "closes": 2, "rel_order": [1, 2], "runner_slot": -1, "rel_by": 0},
+]
+
+
+# closers handed over through the global settings next to a registry of the caller's; a bootstrap App run by a run option
+SETTINGS_CORPUS = [
+    {"n": 3, "kinds": ["F", "W", "A"], "fails": [False, True, False], "shapes": ["P", "P", "P"], "procs": 0, "wdl_ms": 5,
+     "isolate": True, "via_global": [True, False, True], "settings_calls": 2, "own_registry": True, "pack": 0},
+    {"n": 2, "kinds": ["F", "F"], "fails": [True, False], "shapes": ["Z2", "P"], "procs": 0, "wdl_ms": 5,
+     "isolate": True, "via_global": [True, True], "settings_calls": 1, "own_registry": True, "pack": 1},
+    {"n": 2, "kinds": ["F", "W"], "fails": [False, True], "shapes": ["P", "P"], "procs": 0, "wdl_ms": 5,
+     "isolate": True, "via_global": [False, False], "settings_calls": 9, "own_registry": False, "pack": 2, "boot_at": 0,
+     "boot": {"id": 0, "n": 2, "kinds": ["F", "F"], "fails": [True, False], "wdl_ms": 5}},
+    {"n": 1, "kinds": ["A"], "fails": [False], "shapes": ["P"], "procs": 0, "wdl_ms": 5,
+     "isolate": True, "via_global": [False], "settings_calls": 5, "own_registry": True, "pack": 0, "boot_at": 3,
+     "boot": {"id": 0, "n": 1, "kinds": ["W"], "fails": [False], "wdl_ms": 5}},
+]
+
+
 def load_corpus():
     """corpus/C14/*.json (minimised past disagreements / canonical cases) run first; falls back to the built-in list"""
     import glob
     import os
     files = sorted(glob.glob(os.path.join(vlib.VERIF, "corpus", "C14", "*.json")))
     cs = [json.load(open(f)) for f in files]
-    return (cs or CORPUS) + MODE_CORPUS
+    return (cs or CORPUS) + MODE_CORPUS + OVERLAP_CORPUS + SETTINGS_CORPUS
+
+
+def multi_term(e):
+    """an event of a history of overlapping calls: (call, KInv | KObs o), calls numbered from 0 in Coq"""
+    k = e.get("c", 0) - 1
+    if k < 0:
+        k = 99     # an event without a call: attributed to no call of the case
+    return "(%d, KInv)" % k if e["k"] == "inv" else "(%d, KObs (%s))" % (k, obs_term(e))
 
 
 def obs_term(e):
@@ -214,9 +308,21 @@ def evaluate(ctx, binp, cases, tag):
     if res is None:
         raise vlib.GoBuildError("./cmd/c14 (run)", raw[-3000:])
     by_id, terms = {}, []
+    nxt = max([c["id"] for c in cases] + [0]) + 2     # ids of the bootstrap Apps' histories follow all the others
     for c, o in zip(cases, res["outs"]):
         if o["outcome"] == "skipped":
             continue
+        if c.get("boot") is not None:
+            # the bootstrap App of the case is a Close history of its own (its own closers, its own App)
+            bc, bo = c["boot"], o.get("boot") or {"outcome": "runerr", "registered": 0, "events": [], "detail": "no bootstrap App"}
+            boc = OUTCOME.get(bo["outcome"], 3)
+            if boc == 0 and bo["registered"] != bc["n"]:
+                boc = 4
+            by_id[nxt] = {"case": c, "bootstrap_app": True, "events": bo["events"], "outcome": bo["outcome"],
+                          "registered": bo["registered"], "detail": bo["detail"]}
+            terms.append("COne (mkCase %d %d %s %s %d)" % (nxt, bc["n"], vlib.coq_list(str(i + 1) for i, f in enumerate(bc["fails"]) if f),
+                                                          vlib.coq_list(obs_term(e) for e in bo["events"] or []), boc))
+            nxt += 1
         k = c["id"] + 1
         oc = OUTCOME.get(o["outcome"], 3)
         if oc == 0 and o["registered"] != c["n"]:
@@ -224,8 +330,12 @@ def evaluate(ctx, binp, cases, tag):
         by_id[k] = {"case": c, "events": o["events"], "outcome": o["outcome"], "registered": o["registered"],
                     "detail": o["detail"]}
         fails = [i + 1 for i, f in enumerate(c["fails"]) if f]
-        terms.append("mkCase %d %d %s %s %d" % (k, c["n"], vlib.coq_list(str(x) for x in fails),
-                                               vlib.coq_list(obs_term(e) for e in o["events"] or []), oc))
+        if c.get("mode") == "overlap":
+            terms.append("CMulti %d %d %d %s %s %d" % (k, c["closes"], c["n"], vlib.coq_list(str(x) for x in fails),
+                                                      vlib.coq_list(multi_term(e) for e in o["events"] or []), oc))
+            continue
+        terms.append("COne (mkCase %d %d %s %s %d)" % (k, c["n"], vlib.coq_list(str(x) for x in fails),
+                                                      vlib.coq_list(obs_term(e) for e in o["events"] or []), oc))
     out = vlib.coq_eval_sharded(ctx, "cases_c14_" + tag, HEADER, terms,
                                 {"M": "mismatches", "V": "violations", "NT": "count_nontrivial", "NTI": "nontrivial_ids"},
                                 shard=60)
@@ -266,7 +376,9 @@ def run(ctx):
 
     def key(c):
         return vlib.stable_hash([c["n"], c["kinds"], c["fails"], c.get("shapes"), c["procs"], c.get("mode", ""),
-                                 c.get("runner_slot"), c.get("rel_by")])
+                                 c.get("runner_slot"), c.get("rel_by"), c.get("closes"), c.get("rel_order"),
+                                 c.get("via_global"), c.get("settings_calls"), c.get("own_registry"), c.get("pack"),
+                                 c.get("boot"), c.get("boot_at")])
 
     distinct_nt = len({key(by_id[i]["case"]) for i in NTI})
 
@@ -294,6 +406,8 @@ def run(ctx):
         more = [gen_case(ctx.rng, i, 12) for i in range(400)]
         for m in more:
             m["procs"] = ctx.rng.choice([1, 1, 2])
+            if m.get("mode") == "overlap" or m.get("isolate"):   # deterministic by construction
+                continue
             if m.get("mode"):   # a hang costs seconds: the widening run keeps to the ordinary sequence
                 m.pop("mode"), m.pop("runner_slot"), m.pop("rel_by")
         b2, _, V2, _, _ = evaluate(ctx, binp, more, "widen")
@@ -301,16 +415,41 @@ def run(ctx):
 
     sizes, kinds, procs, shp = {}, {}, {}, {"P": 0, "Z": 0, "O": 0, "I": 0}
     modes = {"after_run_returned": 0, "during_run_server_closed_by_its_own_close": 0, "during_run_released_by_another_closer": 0,
-             "during_run_released_by_driver_after_close": 0, "by_a_runner_itself": 0, "runner_is_also_a_closer": 0}
+             "during_run_released_by_driver_after_close": 0, "by_a_runner_itself": 0, "runner_is_also_a_closer": 0,
+             "overlapping_calls": 0, "overlapping_calls_2": 0, "overlapping_calls_3": 0, "overlapping_calls_with_a_gate_closer": 0,
+             "overlapping_calls_a_later_call_returns_first": 0, "closer_invocations_by_overlapping_calls": 0}
     shared = {"cases_with_closers_sharing_an_address": 0, "cases_with_two_or_more_zero_size_closers": 0,
               "cases_with_struct_and_first_field": 0, "cases_with_both": 0, "largest_group_at_one_address": 0,
               "failing_closers_sharing_an_address": 0, "blocking_closers_sharing_an_address": 0}
+    reach = {"cases_in_a_child_process": 0, "closers_through_global_settings": 0, "cases_with_closers_through_global_settings": 0,
+             "cases_with_a_registry_of_the_callers": 0, "global_closers_next_to_a_registry_of_the_callers": 0,
+             "cases_with_a_bootstrap_app_run_by_a_run_option": 0, "bootstrap_app_histories": 0, "app_settings_calls": {},
+             "run_options_packed": {"one_by_one": 0, "all_in_one_group": 0, "settings_in_one_group": 0}}
     for i in by_id:
+        if by_id[i].get("bootstrap_app"):
+            reach["bootstrap_app_histories"] += 1
+            continue
         c = by_id[i]["case"]
+        if c.get("isolate"):
+            ng = sum(1 for x in c.get("via_global") or [] if x)
+            reach["cases_in_a_child_process"] += 1
+            reach["closers_through_global_settings"] += ng
+            reach["cases_with_closers_through_global_settings"] += ng > 0
+            reach["cases_with_a_registry_of_the_callers"] += bool(c.get("own_registry"))
+            reach["global_closers_next_to_a_registry_of_the_callers"] += bool(ng and c.get("own_registry"))
+            reach["cases_with_a_bootstrap_app_run_by_a_run_option"] += c.get("boot") is not None
+            reach["app_settings_calls"][str(c.get("settings_calls", 0))] = reach["app_settings_calls"].get(str(c.get("settings_calls", 0)), 0) + 1
+            reach["run_options_packed"][["one_by_one", "all_in_one_group", "settings_in_one_group"][c.get("pack", 0)]] += 1
         shapes = c.get("shapes") or ["P"] * c["n"]
         md = c.get("mode", "")
         if not md:
             modes["after_run_returned"] += 1
+        elif md == "overlap":
+            modes["overlapping_calls"] += 1
+            modes["overlapping_calls_%d" % c["closes"]] = modes.get("overlapping_calls_%d" % c["closes"], 0) + 1
+            modes["overlapping_calls_with_a_gate_closer"] += "G" in c["kinds"]
+            modes["overlapping_calls_a_later_call_returns_first"] += c["rel_order"] != sorted(c["rel_order"])
+            modes["closer_invocations_by_overlapping_calls"] += sum(1 for e in by_id[i]["events"] or [] if e["k"] == "call")
         elif md == "self":
             modes["by_a_runner_itself"] += 1
         elif c["rel_by"] == 0:
@@ -351,12 +490,19 @@ def run(ctx):
                 "kept per type name), O/I=a struct and its first field both registered (one shared address); GOMAXPROCS "
                 "1/2/4/default); Close invoked after Run returned / while Run is still inside callRunners (a runner that has "
                 "started and blocks until a closer's Close is called or the driver releases it after Close returned; the runner "
-                "a component of its own or one of the closers) / by a runner from inside its Run(); non-trivial = at least two closers, at least one failing, and the calls "
+                "a component of its own or one of the closers) / by a runner from inside its Run() / 2-3 times with the calls overlapping (a later call is invoked when every closer has been "
+                "entered once per earlier call and a gate closer of those is still blocked; the gates are opened call by call in a "
+                "generated order; the j-th entry into a closer belongs to call j; non-trivial: a call was invoked while an earlier one "
+                "had not returned); in a share of the ordinary cases (each in a child process) closers are handed over through the global "
+                "app.Settings(app.SetComponents(...)) instead of the run option, next to a run option app.SetRegistry(<fresh registry>) "
+                "or not, the run options one by one or packed into app.Options values, or a run option runs a bootstrap App with "
+                "closers of its own while the outer Run is applying its options (both Apps closed, two histories); non-trivial = at least two closers, at least one failing, and the calls "
                 "overlapped in the recorded history; distinct = distinct (n, kinds, fails, shapes, procs)",
         "samples": [by_id[i] for i in ids[:2] + ids[-1:]],
         "traces_validated_against_impl": nev,
         "input_distribution": {"size_buckets": sizes, "closer_kinds": kinds, "closer_shapes": shp,
                                "shared_address": shared, "gomaxprocs": procs, "close_invoked": modes,
+                               "how_closers_reach_the_app": reach,
                                "failing_closers": sum(sum(by_id[i]["case"]["fails"]) for i in by_id)},
     }
     return vlib.decide(ctx, static_ok and struct_ok, by_id, M, V, cov, widen=widen, shrink=shrink,
